@@ -9,13 +9,13 @@ pub mod collections {
     use ::std::marker::PhantomData;
 
     pub struct HashMap<K, V, S = ()> {
-        pub items: Vec<(K, V)>,
+        pub items: smallvec::ivec::IVec<(K, V), 8>,
         _s: PhantomData<S>,
     }
 
     impl<K, V, S> Default for HashMap<K, V, S> {
         fn default() -> Self {
-            HashMap { items: Vec::new(), _s: PhantomData }
+            HashMap { items: smallvec::ivec::IVec::new(), _s: PhantomData }
         }
     }
 
@@ -64,7 +64,10 @@ pub mod collections {
             }
         }
         pub fn retain<F: FnMut(&K, &mut V) -> bool>(&mut self, mut f: F) {
-            self.items.retain_mut(|kv| f(&kv.0, &mut kv.1))
+            self.items.retain_mut(|kv| {
+                let (k, v) = kv;
+                f(k, v)
+            })
         }
         pub fn len(&self) -> usize {
             self.items.len()
@@ -99,4 +102,10 @@ pub mod collections {
             self.items.iter().map(split as fn(&'a (K, V)) -> (&'a K, &'a V))
         }
     }
+}
+
+/// `Vec` stand-in for modules whose vectors get a symbolic length under verification (ClaimTable.claims):
+/// fixed-capacity inline storage, same API subset; exceeding the capacity is an assertion failure.
+pub mod vecmodel {
+    pub type Vec<T> = smallvec::ivec::IVec<T, 8>;
 }
